@@ -521,7 +521,7 @@ def execute_failing(desc, ctx) -> None:
     from srctools.bsp import BSP
     from srctools.tokenizer import TokenSyntaxError
     w = G.resolve_world(desc['world'])
-    kind = desc['kind']
+    kind = desc['kind'] or CORRUPTIONS[core.desc_hash([desc['param'], desc['access'], desc['world']]) % len(CORRUPTIONS)]
     late = corrupt_world(kind, desc['param'], w)
     if late is not None and late[0] != LATE[kind]:
         kind = 'phys_dup'                       # prerequisite missing in this world: fell back
@@ -660,28 +660,31 @@ PRELUDE = st.one_of(st.just(G.LZMA_DEFAULT), st.sampled_from([[0, 2, 0, 16], [4,
 
 def strat_synth(tier):
     return st.fixed_dictionaries({
-        'world': G.world_strategy(tier),
+        # small parts first: when a big world exhausts Hypothesis' entropy buffer the later draws degenerate to minima
         'history': history_strategy(access_strategy()),
         'prelude': PRELUDE,
+        'world': G.world_strategy(tier),
     })
 
 
 def strat_failing(tier):
     return st.fixed_dictionaries({
-        'world': G.world_strategy(tier),
-        'kind': st.integers(0, 1000 * len(CORRUPTIONS) - 1).map(lambda k: CORRUPTIONS[k % len(CORRUPTIONS)]),
+        # small parts first: when a big world exhausts Hypothesis' entropy buffer the later draws degenerate to minima.
+        # kind None = chosen by a hash of the rest of the descriptor (uniform over distinct cases whatever the search does)
+        'kind': st.none(),
         'param': st.integers(0, 1000),
         'access': st.lists(st.sampled_from(G.VIEW_ORDER), max_size=4),
         'more': st.lists(st.lists(st.sampled_from(G.VIEW_ORDER), max_size=4), max_size=2),
+        'world': G.world_strategy(tier),
     })
 
 
 def strat_container(tier):
     """Poor geometry, rich container: opaque lumps, LZMA, game lumps; mostly nothing accessed."""
     return st.fixed_dictionaries({
-        'world': G.world_strategy(tier, rich=False),
         'history': history_strategy(st.one_of(st.just([]), st.just([]), access_strategy(max_size=2)), 2),
         'prelude': PRELUDE,
+        'world': G.world_strategy(tier, rich=False),
     })
 
 
@@ -694,7 +697,7 @@ SUBCHECKS = [
     Sub('sample_pairs', execute_sample, enumerate=enum_pairs, quick_shards=8, thorough_shards=16, floor=10),
     Sub('sample_subsets', execute_sample, strategy=strat_subsets, quick=24, thorough=2000, quick_shards=8,
         thorough_shards=16, floor=10, must_hit=('history:same_object_look_save_look_save',)),
-    Sub('synth', execute_synth, strategy=strat_synth, quick=1000, thorough=24000, quick_shards=8, thorough_shards=16,
+    Sub('synth', execute_synth, strategy=strat_synth, quick=800, thorough=24000, quick_shards=8, thorough_shards=16,
         floor=200, must_hit=_VIEW_LABELS + _LAYOUT_LABELS + (
             'history:same_object_look_save_look_save', 'history:fresh_object_per_cycle', 'history:same_path',
             'lzma:all_lumps', 'tables:non_canonical', 'tables:unreferenced_texdata', 'tables:texdata_out_of_order',
